@@ -95,7 +95,13 @@ def regex_timeout_constant(prop, tier, seed):
     except Exception as e:
         v = None
     ok = isinstance(v, (int, float)) and not isinstance(v, bool) and 0 < v <= 0.1
-    return [ob('C05:REGEX_TIMEOUT:is-a-number-in-(0,0.1]-seconds', ['C05'], ok, {'value': repr(v)})], {}
+    return [ob('C05:REGEX_TIMEOUT:is-a-number-in-(0,0.1]-seconds', ['C05'], ok, {'value': repr(v)})], {
+        'level': 'other',
+        'explanation': 'package-side obligations of C05 are proved deductively (every regex call of the three builtins passes '
+                       'timeout=REGEX_TIMEOUT on every path, the constant is a small positive number, nothing else calls the engine); '
+                       'the for-all-patterns wall-clock bound is a property of the third-party C regex engine that no contract within '
+                       'reach can express or decide: it is an assumption (matching honours the timeout; compilation is outside it)',
+        'assumed': ['A-REGEX-ENGINE: regex.search / regex.findall(..., timeout=T) return or raise within T plus time linear in the input, including compilation (measured, not proved)']}
 
 
 def module_state(prop, tier, seed):
